@@ -167,7 +167,9 @@ def judge_line(case):
 
 KEYS = ["'", '"', "`", "\\", "$", "(", ")", "{", "}", "|", "&", ";", ">", "<", "*", "~", "#", " ", "Q", "Z", "7", "é", "中", "🙂", "́",
         "\t", "\t\t", "\x1b[A", "\x1b[B", "\x1b[C", "\x1b[D", "\x01", "\x05", "\x0b", "\x15", "\x17", "\x7f", "\r", "\x1b[3~", "\x1bb", "\x1bf",
-        "\x0c", "\x14", "\x19", "Qp_", "Qp_argv ", "./", "~/", "$X", "!!", "2>&1"]
+        "\x0c", "\x14", "\x19", "Qp_", "Qp_argv ", "./", "~/", "$X", "!!", "2>&1",
+        # whole lines that make the history expansion see its own output: a recorded command containing `!!`, then `!!`
+        "Qe '!!'\r", "Qe again !!\r", "!!\r", " !! \r", "Qe \\!\\! !!\r"]
 
 
 def judge_pty(case):
@@ -274,6 +276,13 @@ def run(tier, seed):
     l1_strings = 0
     for p in jobs:
         o, _ = p.communicate()
+        if p.returncode == 4 and b"\nHANG " in o:
+            # the shard's watchdog fired inside one call: that call does not terminate (the rest of the shard is unexplored)
+            parts = o[o.rindex(b"\nHANG ") + 6:].split()
+            stage, hexin = parts[0], (parts[1] if len(parts) > 1 else b"")
+            example = bytes.fromhex(hexin.decode()).decode("utf-8", "replace")
+            rep.violate("C05:inprocess:%s:does-not-return-within-20s" % stage.decode(), {"layer": 1, "example": example}, {"count": 1})
+            continue
         if p.returncode != 0 or not o.strip():
             rep.inconc("harness: layer-1 shard exited %s" % p.returncode)
             continue
